@@ -784,11 +784,11 @@ def kernel_suite(chk, w, rule, orders=(0, 1, 2, 3), order_pairs=((1, 1), (2, 1),
                             for p_ in range(0, A + 1, 2):
                                 want[("c", "a", I, p_)] = 2 * h ** (p_ + 1) / (p_ + 1)
                         got = _lin_of(o)
-                        ok = got == want and ring_only(c0, d0)
+                        ok = got == want
+                        _premise(ok, ring_only(c0, d0), "LinearForm::evaluate")
                         cs.expect(blame(w, "lf_id", flf), "LinearForm{}(a) = sum over the intervals of sum_{p even} a_p 2 h^(p+1)/"
                                   "(p+1) (exact weights, ring operations only)", case, o, ok,
-                                  "(got %s, specified %s%s)" % (_fmt_w(got), _fmt_w(want), "" if ring_only(c0, d0) else
-                                                                "; the kernel compares or divides by data"))
+                                  "(got %s, specified %s)" % (_fmt_w(got), _fmt_w(want)))
                     # evaluation at order+1 abscissae inside every interval, at the end points and outside
                     for I in (range(s_, e_ - 1) if "eval" in parts else ()):
                         xm = (xs[I] + xs[I + 1]) / 2
@@ -985,8 +985,7 @@ def kernel_suite(chk, w, rule, orders=(0, 1, 2, 3), order_pairs=((1, 1), (2, 1),
                                         break
                                 if not ok:
                                     break
-                            if ok and not ring_only(c0, d0):
-                                ok, why = False, "the product compares or divides by data"
+                            _premise(ok, ring_only(c0, d0), "Spline::operator*")
                         cs.expect(fmul, "a*b with b a unit coefficient vector: coefficient k of interval I is exactly a_(k-j)(I) "
                                   "(the Cauchy product, weights 1)", dict(orders=(A, B), n=n, window=(s_, e_), b_interval=Ib,
                                                                           b_power=j), o, ok, "(%s)" % why)
@@ -1024,8 +1023,7 @@ def kernel_suite(chk, w, rule, orders=(0, 1, 2, 3), order_pairs=((1, 1), (2, 1),
                                     break
                             if not ok:
                                 break
-                        if ok and not ring_only(c0, d0):
-                            ok, why = False, "the operator compares or divides by data"
+                        _premise(ok, ring_only(c0, d0), "Position::transform")
                     cs.expect(blame(w, "op_x%d" % m, fx), "x^m a: coefficient q of interval I is sum_k C(m,k) midpoint^(m-k) "
                               "a_(q-k)(I) (exact weights, ring operations only)",
                               dict(order=A, m=m, points=[str(x) for x in xs]), o, ok, "(%s)" % why)
@@ -1049,13 +1047,22 @@ def kernel_suite(chk, w, rule, orders=(0, 1, 2, 3), order_pairs=((1, 1), (2, 1),
                         want = {("c", "a", Ib, i): 2 * h ** (i + j + 1) / (i + j + 1) for i in range(A + 1)
                                 if (i + j) % 2 == 0}
                         got = _lin_of(o)
-                        ok = got == want and ring_only(c0, d0)
+                        ok = got == want
+                        _premise(ok, ring_only(c0, d0), "BilinearForm::evaluate")
                         cs.expect(blame(w, "bf_id", fbf), "<a|b> = sum over the common intervals of sum_{i+j even} a_i b_j 2 h^(i+j+1)/"
                                   "(i+j+1) (b = unit coefficient vectors; exact weights, ring operations only)",
                                   dict(orders=(A, B), points=[str(x) for x in xs], b_interval=Ib, b_power=j), o, ok,
-                                  "(got %s, specified %s%s)" % (_fmt_w(got), _fmt_w(want), "" if ring_only(c0, d0) else
-                                                                "; the kernel compares or divides by data"))
+                                  "(got %s, specified %s)" % (_fmt_w(got), _fmt_w(want)))
     return cs.flush()
+
+
+def _premise(values_agree, ring_only, what):
+    """The polynomial-identity argument needs a kernel made of ring operations only. If the values agree on every sampled
+    grid but the kernel compares or divides by data, agreement for all grids does not follow: that is 'not analysed', not
+    a violation (a disagreement on a sampled grid is a violation either way)."""
+    if values_agree and not ring_only:
+        raise AnalysisBroken("%s compares or divides by data: its value is not a polynomial of the grid points, the "
+                             "degree+1-widths argument of the kernel check does not apply" % what)
 
 
 def _fmt_w(l):
